@@ -163,8 +163,10 @@ Bracket OneDimensionOptimizationTools::inwardBracketMinimum(
       bestMiddleF = fcurr;
     }
   }
-  bracket.c.x = bestMiddleX;
-  parameters[0].setValue(bracket.c.x); bracket.c.f = function.f(parameters);
+  // As for bracketMinimum, the middle point of the triple (b) is the lowest one, a and c are the ends:
+  bracket.c = bracket.b;
+  bracket.b.x = bestMiddleX;
+  parameters[0].setValue(bracket.b.x); bracket.b.f = function.f(parameters);
   return bracket;
 }
 
